@@ -169,6 +169,15 @@ pub mod deserialize_with_ext {
 	pub mod notif {
 		use jsonrpsee_types::Notification;
 
+		/// A notification has no `id` member, or a single one that isn't a valid request ID; an object that
+		/// repeats the `id` member isn't one: it's rejected as a method call for that reason and must not be
+		/// accepted here (where `id` is just an unknown member), or it would go unanswered.
+		#[derive(serde::Deserialize)]
+		struct AtMostOneId {
+			#[serde(default, rename = "id")]
+			_id: Option<serde::de::IgnoredAny>,
+		}
+
 		/// Wrapper over `serde_json::from_slice` that sets the extensions.
 		pub fn from_slice<'a, T>(
 			data: &'a [u8],
@@ -178,6 +187,7 @@ pub mod deserialize_with_ext {
 			T: serde::Deserialize<'a>,
 		{
 			let mut notif: Notification<T> = serde_json::from_slice(data)?;
+			let _: AtMostOneId = serde_json::from_slice(data)?;
 			*notif.extensions_mut() = extensions.clone();
 			Ok(notif)
 		}
@@ -191,6 +201,7 @@ pub mod deserialize_with_ext {
 			T: serde::Deserialize<'a>,
 		{
 			let mut notif: Notification<T> = serde_json::from_str(data)?;
+			let _: AtMostOneId = serde_json::from_str(data)?;
 			*notif.extensions_mut() = extensions.clone();
 			Ok(notif)
 		}
